@@ -16,7 +16,9 @@ import (
 	"github.com/hujm2023/go-sms-protocol/cmpp/cmpp20"
 	"github.com/hujm2023/go-sms-protocol/codec"
 	"github.com/hujm2023/go-sms-protocol/datacoding"
+	"github.com/hujm2023/go-sms-protocol/smgp"
 	"github.com/hujm2023/go-sms-protocol/smgp/smgp30"
+	"github.com/hujm2023/go-sms-protocol/smpp"
 	"github.com/hujm2023/go-sms-protocol/smpp/smpp34"
 	"github.com/hujm2023/go-sms-protocol/verifhook"
 
@@ -75,7 +77,54 @@ type hres struct {
 	label string // site for finding keys
 }
 
-var hopName = []string{"decode", "encode", "String", "split", "ParseLongSmsContent", "Utf8ToUcs2Pooled", "ExtractDeliveryReceipt", "Build", "helper-packet"}
+var hopName = []string{"decode", "encode", "String", "split", "ParseLongSmsContent", "Utf8ToUcs2Pooled", "ExtractDeliveryReceipt", "Build", "helper-packet", "status-report"}
+
+// scribbleBytes overwrites every []byte reachable from a decoded PDU (message
+// bodies, optional-parameter values) in place.
+func scribbleBytes(p any) {
+	var walk func(v reflect.Value)
+	walk = func(v reflect.Value) {
+		switch v.Kind() {
+		case reflect.Ptr, reflect.Interface:
+			if !v.IsNil() {
+				walk(v.Elem())
+			}
+		case reflect.Struct:
+			for i := 0; i < v.NumField(); i++ {
+				walk(v.Field(i))
+			}
+		case reflect.Slice:
+			if v.Type().Elem().Kind() == reflect.Uint8 {
+				b := v.Bytes()
+				for i := range b {
+					b[i] = 0x3C
+				}
+				return
+			}
+			for i := 0; i < v.Len(); i++ {
+				walk(v.Index(i))
+			}
+		case reflect.Map:
+			switch m := v.Interface().(type) {
+			case smpp.TLVs:
+				for _, t := range m {
+					b := t.Value()
+					for i := range b {
+						b[i] = 0x3C
+					}
+				}
+			case smgp.Options:
+				for _, o := range m {
+					b := o.Value()
+					for i := range b {
+						b[i] = 0x3C
+					}
+				}
+			}
+		}
+	}
+	walk(reflect.ValueOf(p))
+}
 
 // withBirth carries a result together with the snapshot taken the moment it
 // was returned (before the fault injector touched a sibling output).
@@ -201,7 +250,7 @@ func genHistory(c *core.Chooser, prop string, tid int, maxOps int) []hop {
 	ops := make([]hop, 0, n)
 	for i := 0; i < n; i++ {
 		var o hop
-		weights := []int{5, 4, 2, 2, 1, 2, 1, 0, 2}
+		weights := []int{5, 4, 2, 2, 1, 2, 1, 0, 2, 1}
 		if prop == "C13" {
 			weights[7] = 2
 		}
@@ -237,6 +286,9 @@ func genHistory(c *core.Chooser, prop string, tid int, maxOps int) []hop {
 		case 6:
 			o.smpp = c.Bool()
 			o.text = fmt.Sprintf("id:%s sub:001 dlvrd:001 submit date:2401011200 done date:2401011201 stat:%s err:000 text:%s", c.Blob(10, "digits"), c.Blob(7, "print"), c.Blob(c.Intn(20), "digits"))
+		case 9:
+			o.text = string(c.Blob(7, "print")) + string(c.Blob(10, "digits")) + string(c.Blob(10, "digits")) + string(c.Blob(13, "digits"))
+			o.coding = c.Intn(1 << 30)
 		case 8:
 			o.coding = c.Intn(8)      // which helper
 			o.ref = byte(c.Intn(256)) // low octet of the sequence number
@@ -301,7 +353,14 @@ func execOp(r *core.Run, t *taskState, o hop) (live any, label string, panicked 
 			if derr != nil {
 				live = "decode error"
 			} else {
-				live = pdu
+				// FAULT scribble_output: a second PDU decoded from the same frame belongs to another owner,
+				// who overwrites every byte value it holds (decoded values share no memory with each other)
+				pre := snapshot(pdu)
+				sib := ctor[label]()
+				if sib.IDecode(view) == nil {
+					scribbleBytes(sib)
+				}
+				live = withBirth{live: pdu, birth: pre}
 			}
 			// FAULT scribble_input: the caller reuses its read buffer right after decoding
 			for i := range view {
@@ -378,6 +437,25 @@ func execOp(r *core.Run, t *taskState, o hop) (live any, label string, panicked 
 			for i := range buf {
 				buf[i] = 0x5A
 			}
+		})
+		return live, label, p
+	case 9:
+		label = "cmpp.SubPduDeliveryContent.IEncode"
+		p := r.Call(label, func() {
+			mk := func(x int) *cmpp.SubPduDeliveryContent {
+				return &cmpp.SubPduDeliveryContent{MsgID: uint64(o.coding+x) * 1000003, Stat: o.text[:7], SubmitTime: o.text[7:17], DoneTime: o.text[17:27], DestTerminalID: o.text[27:40], SMSCSequence: uint32(o.coding + x)}
+			}
+			b, err := mk(0).IEncode()
+			if err != nil {
+				live = "encode error"
+				return
+			}
+			pre := snapshot(b)
+			b2, _ := mk(1).IEncode()
+			for i := range b2 {
+				b2[i] = 0xC3
+			}
+			live = withBirth{live: b, birth: pre}
 		})
 		return live, label, p
 	case 8:
